@@ -10,6 +10,7 @@
 //! post-state of an uninterrupted run, `Ok` only with the post-state; re-running a failed
 //! operation succeeds and reaches the post-state (random identifiers masked).
 pub mod ops;
+pub mod twoconn;
 
 use std::sync::atomic::{AtomicBool, AtomicI64, AtomicU64, Ordering};
 use std::sync::{Arc, Mutex};
@@ -150,7 +151,7 @@ fn uninstall(w: &mut Wallet, class: Class) {
     }
 }
 
-fn run_op(op: &OpDef, w: &mut Wallet, fx: &Fixture) -> Result<String, String> {
+pub(crate) fn run_op(op: &OpDef, w: &mut Wallet, fx: &Fixture) -> Result<String, String> {
     match mc_core::catch(|| (op.f)(w, fx)) {
         Ok(r) => r,
         Err(p) => Err(format!("PANIC: {p}")),
@@ -266,6 +267,14 @@ fn tier_ops(tier: Tier) -> Vec<&'static str> {
 }
 
 pub fn replay(kind: &str, case: &Value) -> Result<(), String> {
+    if kind == "twoconn" {
+        let fx = Fixture::build();
+        let name = case["op"].as_str().unwrap_or("");
+        let op = fx.ops.iter().find(|o| o.name == name).ok_or_else(|| format!("unknown op {name}"))?;
+        let wal = case["wal"].as_bool().unwrap_or(false);
+        let x = case["x"].as_u64().unwrap_or(1);
+        return if case["class"].as_u64() == Some(4) { twoconn::writer_observed(&fx, op, wal, x).map(|_| ()) } else { twoconn::reader_interrupted(&fx, op, wal, x).map(|_| ()) };
+    }
     if kind != "fault" {
         return Err(format!("unknown kind {kind}"));
     }
@@ -349,6 +358,73 @@ pub fn run(args: &Args) -> i32 {
     }
     run.sample(json!({"op": "scan1@mid", "class": "Step", "k": 1234, "meaning": "interrupt scan_cached_blocks of one block at its 1234th SQLite VM step; expect Err, database == pre-state, retry == uninterrupted run"}));
     run.sample(json!({"op": "lock@mid", "class": "Commit", "k": 1, "meaning": "veto the first commit of lock_outputs (process dies before it); expect database == pre-state"}));
+    // ---- classes 4 and 5: two connections on a file-backed database
+    {
+        let two_ops: Vec<&OpDef> = ops.iter().copied().filter(|o| args.tier == Tier::Thorough || ["scan1@mid", "truncate@mid", "lock@mid", "tip_beyond@mid"].contains(&o.name.as_str())).collect();
+        let mut jobs: Vec<(usize, bool, u64, u64)> = vec![]; // (op, wal, class 4: period | class 5: step, class)
+        for (i, op) in two_ops.iter().enumerate() {
+            let m = &measures[ops.iter().position(|o| o.name == op.name).unwrap()];
+            let max_obs = args.tier.pick(150u64, 3000u64);
+            let period = (m.steps / max_obs).max(1);
+            for wal in [false, true] {
+                jobs.push((i, wal, period, 4));
+            }
+            let rs = twoconn::reader_steps(&fx, op);
+            let stride = (rs / args.tier.pick(60u64, 1500u64)).max(1);
+            let mut k = 1;
+            while k <= rs {
+                for wal in [false, true] {
+                    jobs.push((i, wal, k, 5));
+                }
+                k += stride;
+            }
+            run.section(&format!("two_connections:{}", op.name), json!({"writer_vm_steps": m.steps, "snapshot_period": period, "reader_vm_steps": rs, "reader_step_stride": stride}));
+            if period > 1 || stride > 1 {
+                run.not_exhaustive();
+            }
+        }
+        let out4: Mutex<Vec<String>> = Mutex::new(vec![]);
+        par_map(
+            &jobs,
+            || (),
+            |_, (i, wal, x, class)| {
+                if t0.elapsed().as_secs_f64() > wall_cap + 12.0 {
+                    skipped.fetch_add(1, Ordering::Relaxed);
+                    return;
+                }
+                let op = two_ops[*i];
+                if *class == 4 {
+                    match twoconn::writer_observed(&fx, op, *wal, *x) {
+                        Ok(r) => {
+                            run.eval_distinct(r.observations);
+                            run.outcome_n(&format!("snapshot:{}:consistent", if *wal { "wal" } else { "journal" }), r.observations);
+                            run.outcome_n(&format!("snapshot:{}:busy", if *wal { "wal" } else { "journal" }), r.busy);
+                            if r.saw_pre && r.saw_post {
+                                run.outcome("snapshot:saw-both-pre-and-post");
+                            }
+                        }
+                        Err(e) => out4.lock().unwrap().push(format!("{}|{}|{}|4|{}", op.name, wal, x, e)),
+                    }
+                } else {
+                    match twoconn::reader_interrupted(&fx, op, *wal, *x) {
+                        Ok(o) => {
+                            run.eval_distinct(1);
+                            run.outcome(&format!("reader:{}:{o}", if *wal { "wal" } else { "journal" }));
+                        }
+                        Err(e) => out4.lock().unwrap().push(format!("{}|{}|{}|5|{}", op.name, wal, x, e)),
+                    }
+                }
+            },
+        );
+        for l in out4.into_inner().unwrap() {
+            let parts: Vec<&str> = l.splitn(5, '|').collect();
+            run.fail("twoconn", format!("twoconn:{}:{}:{}:{}", parts[0], parts[1], parts[2], parts[3]), parts[4].to_string(), json!({"op": parts[0], "wal": parts[1] == "true", "x": parts[2].parse::<u64>().unwrap(), "class": parts[3].parse::<u64>().unwrap()}));
+        }
+        let sk2 = skipped.load(Ordering::Relaxed);
+        if sk2 > sk {
+            run.cap_hit(&format!("wall cap: {} two-connection experiments not run", sk2 - sk));
+        }
+    }
     let mut f = fails.into_inner().unwrap();
     f.sort_by(|a, b| (a.0, a.1, a.2).cmp(&(b.0, b.1, b.2)));
     for (i, class, k, msg) in f {
